@@ -55,6 +55,10 @@ pub struct Case {
     /// prompt (a direct-mode FOR, a READ) is a reference into the old program like any other
     #[serde(default)]
     pub pre: Option<String>,
+    /// further successful edits after the first one (a scratch line added and deleted in turn): the
+    /// 256th or 65536th edit invalidates as much as the first
+    #[serde(default)]
+    pub extra_edits: u32,
 }
 
 fn reply_texts(c: &ProgCase) -> Vec<String> {
@@ -323,6 +327,29 @@ fn one_placement(c: &Case, k: u32, at_stop: Option<u32>, ctx: &mut Ctx) -> Optio
             format!("after edit `{text}` (suspended by {how}): {:?}", p1),
         );
     }
+    // ---- more edits: nothing comes back
+    if c.extra_edits > 0 {
+        for k in 0..c.extra_edits {
+            let t = if k % 2 == 0 { "99990 REM scratch" } else { "99990" };
+            let call = s.apply(&Op::Line(t.to_string())).unwrap();
+            if let Some(p) = call.panicked() {
+                return v("panic", format!("panic@{p}"), format!("edit {} of a series unwound: {p}", k + 2));
+            }
+        }
+        ctx.calls(c.extra_edits as u64);
+        ctx.count("fault.series_of_edits");
+        let p2 = s.probe(true);
+        if !same_data(&p0, &p2) {
+            return v("edit-changed-data", "variables/arrays after a series of edits".into(), format!("after {} further edits: variables/arrays before {:?} {:?} after {:?} {:?}", c.extra_edits, p0.variables, p0.arrays, p2.variables, p2.arrays));
+        }
+        if p2.breakpoint.is_some() || !p2.stack.is_empty() || !p2.loops.is_empty() || !p2.functions.is_empty() || p2.data_cursor.is_some() {
+            return v(
+                "stale-reference-kept",
+                format!("after {} edits: breakpoint={} stack={} loops={} functions={} data={}", c.extra_edits + 1, p2.breakpoint.is_some(), p2.stack.len(), p2.loops.len(), p2.functions.len(), p2.data_cursor.is_some()),
+                format!("after edit `{text}` and {} further edits (suspended by {how}): {:?}", c.extra_edits, p2),
+            );
+        }
+    }
     // ---- the behavioural probe
     let edited = apply_edit_to_ast(&c.prog.lines, &c.edit);
     let (cmd, expect_err, expect_print): (String, Option<&str>, Option<String>) = match &c.probe {
@@ -524,7 +551,37 @@ impl Prop for C11 {
         } else {
             None
         };
-        Case { prog, suspend, edit, probe, pre }
+        let extra_edits = if matches!(edit, Edit::Failed(_)) {
+            0
+        } else {
+            match rng.below(400) {
+                0..=11 => rng.pick(&[255u32, 256, 257, 511, 512]),
+                12 => rng.pick(&[65535u32, 65536]),
+                13..=30 => 1 + rng.below(4) as u32,
+                _ => 0,
+            }
+        };
+        let extra_edits = if matches!(suspend, Suspend::EveryBoundary) { extra_edits.min(512) } else { extra_edits };
+        let mut case = Case { prog, suspend, edit, probe, pre, extra_edits };
+        // the smallest program: one line; deleting it empties the program — and keeps what it stored
+        if rng.chance(1, 40) {
+            let num = 10 * (1 + rng.below(9));
+            let let_ = |name: &str, index: Option<Vec<Expr>>, e: Expr| Stmt::Let { kw: false, target: LValue { name: name.to_string(), index }, e };
+            case.prog.lines = vec![Line {
+                num,
+                stmts: vec![
+                    let_("C", None, Expr::Num(5.0)),
+                    Stmt::Dim("K".into(), vec![Expr::Num(3.0)]),
+                    let_("K", Some(vec![Expr::Num(1.0)]), Expr::Num(7.0)),
+                    let_("C$", None, Expr::Str("kept".into())),
+                ],
+            }];
+            case.suspend = Suspend::Boundary(100_000);
+            case.edit = if rng.chance(2, 3) { Edit::Delete(num) } else { Edit::Replace(Line { num, stmts: vec![Stmt::Rem(" gone".into())] }) };
+            case.probe = ProbeCmd::PrintVar(if rng.chance(1, 2) { "C".into() } else { "C$".into() });
+            case.pre = None;
+        }
+        case
     }
 
     fn execute(c: &Case, ctx: &mut Ctx) -> Option<Violation> {
